@@ -315,7 +315,8 @@ def _lin_spec(g, S, base):
     return out
 
 
-HARNESSES = dict(binop=h_binop, unop=h_unop, scalar=h_scalar, tree=h_tree, cobs=h_cobs, derived=h_derived)
+from props import c10 as _c10  # noqa: array_mode of derived_observable is exercised through linalg.matmul
+HARNESSES = dict(binop=h_binop, unop=h_unop, scalar=h_scalar, tree=h_tree, cobs=h_cobs, derived=h_derived, array_mode=_c10.h_matmul)
 
 
 # ----------------------------------------------------------------------------- jobs
@@ -380,6 +381,9 @@ def jobs(tier, seed):
                        ({'e|r1': [1, 2, 3, 4, 5]}, e1, COV2)]:
         for v in ('autograd', 'num_grad', 'man_grad', 'multi', 'ndarray'):
             add('derived', la=la, lb=lb, lc=lc, variant=v)
+    # array_mode (the branch behind linalg.matmul): covariance inputs on some operands only, Monte Carlo operands on different ensembles
+    add('array_mode', n=2, nf=2, lays=[{'e|r1': [1, 2, 3, 4, 5]}, {'f|r1': [2, 4, 6, 8, 10]}], covf=[False, True])
+    add('array_mode', n=2, nf=3, lays=[{'e|r1': [1, 2, 3, 4, 5]}], covf=[False, False, True])
     if tier == 'thorough':
         allp = layouts.all_pairs()
         step = 1
